@@ -17,7 +17,7 @@ RULE = ('queries {finite flat facts; a fact whose second argument is a 60-elemen
         'rule with a deep failing branch between answers; registered Python predicates whose clean-up (finally) code needs 0, 3, 12 or 30 nested calls, queried directly and through call/1; predicates answered from two sources (dynamic facts followed by compiled clauses, dynamic facts followed by a Python predicate)} x EVERY recursion_limit from 8 to 400 (each value moves the '
         'point at which the limit strikes; quick: every value up to 89, then every 7th) x projection functions {identity, observe the variables, '
         'raise ValueError at the k-th answer for k=1..5, raise RuntimeError at the 2nd, raise StopIteration at the 2nd, run a bounded sub-query on the same engine for every answer (nested evaluate_bounded, inner limit 150 / 500)}, '
-        'called from a shallow stack; plus bounds ABOVE the interpreter\'s own limit (1200, 3000, 10000) for nat/1, ev/1, a compiled recursion over a dynamic base fact and len/2 of a 700-element list, with the identity projection and projections raising at answer 1, 200, 450, 900, 1400 (each call in a forked child: a dying interpreter is a violation); plus, for 5 queries at every limit 8..63, the same call with logging silent and with every logger at DEBUG and a stream handler attached, which must return the same. Checked: no RecursionError escapes; the result is a prefix of RefProlog\'s answer '
+        'called from a shallow stack; plus bounds ABOVE the interpreter\'s own limit (1200, 3000, 10000) for nat/1, ev/1, a compiled recursion over a dynamic base fact and len/2 of a 700-element list, with the identity projection and projections raising at answer 1, 200, 450, 900, 1400 (each call in a forked child: a dying interpreter is a violation); plus, for 8 queries at every limit 8..63, the same call in a quiet process and in one with every logger at DEBUG, a stream handler attached and warnings turned into errors, which must return the same. Checked: no RecursionError escapes; the result is a prefix of RefProlog\'s answer '
         'sequence (projected), and the whole sequence when the limit exceeds the measured stack depth of an unbounded '
         'run by a margin; afterwards sys.getrecursionlimit() is the old value and every live engine variable (weak set '
         'hook) is unbound - also when the projection raised and the caller still holds the query. evaluations = '
@@ -453,13 +453,14 @@ def _high_in_thread(bound, qn, kk):
 # configures), evaluate_bounded must return what it returns with logging silent, for the same
 # query, limit and projection - in particular at limits only a few frames above what the search
 # needs, where anything the library itself does inside the bounded region competes for the stack.
-LOGGED_QUERIES = ['flat', 'len5', 'app', 'mixed-sources', 'pyg0']
+LOGGED_QUERIES = ['flat', 'len5', 'len20', 'app', 'mixed-sources', 'pyg0', 'nat', 'leftrec']
 LOGGED_LIMITS = list(range(8, 64))
 
 
 def run_logged(spec, acc):
     import logging
     import os
+    import warnings
     _, k, n = spec
     sys.setrecursionlimit(1000)
     pytext = compile_cached(show_program(PROGRAM))
@@ -486,7 +487,10 @@ def run_logged(spec, acc):
                     lg.setLevel(logging.DEBUG)
                     lg.propagate = True
                     try:
-                        bad1, info1 = one_call(pytext, qn, goals[qn], limit, pn, exp[qn], None)
+                        # ... and with warnings turned into errors (python -W error, pytest filterwarnings=error)
+                        with warnings.catch_warnings():
+                            warnings.simplefilter('error')
+                            bad1, info1 = one_call(pytext, qn, goals[qn], limit, pn, exp[qn], None)
                     finally:
                         root.removeHandler(handler)
                         root.setLevel(saved[0])
@@ -496,11 +500,11 @@ def run_logged(spec, acc):
                         sys.setrecursionlimit(1000)
                     label = 'query %s, recursion_limit=%d, projection %s, ' % (show_term(goals[qn]), limit, pn)
                     if bad1 and not bad0:
-                        acc.violation('logging:' + bad1[0], ('L', limit, qn, pn), {'logged': [qn, limit, pn]}, label + 'with DEBUG logging to a stream handler: ' + bad1[1], key='logged|%s|%d|%s' % (qn, limit, pn))
+                        acc.violation('logging:' + bad1[0], ('L', limit, qn, pn), {'logged': [qn, limit, pn]}, label + 'with DEBUG logging to a stream handler and warnings turned into errors: ' + bad1[1], key='logged|%s|%d|%s' % (qn, limit, pn))
                         continue
                     if not bad0 and info0 != info1:
                         acc.violation('logging:result-depends-on-logging-configuration', ('L', limit, qn, pn), {'logged': [qn, limit, pn]},
-                                      label + 'returns %r (answers, status) with logging silent but %r with every logger at DEBUG and a stream handler attached' % (info0, info1),
+                                      label + 'returns %r (answers, status) with logging silent but %r with every logger at DEBUG, a stream handler attached and warnings turned into errors' % (info0, info1),
                                       key='logged|%s|%d|%s' % (qn, limit, pn))
                         continue
                     acc.n['transitions'] += 2
